@@ -1,0 +1,76 @@
+//go:build verif
+
+package grpctunnel
+
+import (
+	"sync"
+	"sync/atomic"
+)
+
+// Hook points used by the verification harness under /verif (build tag "verif").
+
+var verifYieldHook atomic.Pointer[func(string)]
+
+// VerifSetYieldHook installs (or, with nil, removes) a function called at the
+// named yield points inside the library.
+func VerifSetYieldHook(f func(string)) {
+	if f == nil {
+		verifYieldHook.Store(nil)
+		return
+	}
+	verifYieldHook.Store(&f)
+}
+
+func verifYield(tag string) {
+	if h := verifYieldHook.Load(); h != nil {
+		(*h)(tag)
+	}
+}
+
+var (
+	verifServersMu sync.Mutex
+	verifServers   []*tunnelServer
+)
+
+func verifNoteServer(s *tunnelServer) func() {
+	verifServersMu.Lock()
+	verifServers = append(verifServers, s)
+	verifServersMu.Unlock()
+	return func() {
+		verifServersMu.Lock()
+		defer verifServersMu.Unlock()
+		for i, x := range verifServers {
+			if x == s {
+				verifServers = append(verifServers[:i], verifServers[i+1:]...)
+				return
+			}
+		}
+	}
+}
+
+// VerifServerTableSizes returns the number of entries in the stream table of
+// every tunnel server whose serve loop is running, in start order.
+func VerifServerTableSizes() []int {
+	verifServersMu.Lock()
+	svrs := append([]*tunnelServer(nil), verifServers...)
+	verifServersMu.Unlock()
+	out := make([]int, len(svrs))
+	for i, s := range svrs {
+		s.mu.RLock()
+		out[i] = len(s.streams)
+		s.mu.RUnlock()
+	}
+	return out
+}
+
+// VerifClientTableSize returns the number of entries in the channel's stream
+// table (-1 if ch is not a tunnel channel).
+func VerifClientTableSize(ch TunnelChannel) int {
+	c, ok := ch.(*tunnelChannel)
+	if !ok || c == nil {
+		return -1
+	}
+	c.mu.RLock()
+	defer c.mu.RUnlock()
+	return len(c.streams)
+}
